@@ -9,6 +9,8 @@ from .c01 import CALL_CLOSURE
 
 WITNESSES = ["W17"]
 
+CRATES = (IM,)
+
 META = {
     "explanation": (
         "Static decision on MIR, applied identically to the vector family and its transaction twin (sibling agreement): R17.1 an out-of-range index "
